@@ -44,13 +44,13 @@ PROPS['C18'] = dict(
 )
 PROPS['C12'] = dict(
     modules=['specs.mtest', 'contracts.mtest', 'lemmas.mtest'],
-    bounded=['bounded.mtest'],
+    bounded=['bounded.mtest', 'bounded.testrun'],
     level='proof',
-    design_ref='DESIGN.md §4 C12',
-    technique='deductive: VCs from the real AST of the TestRun completion methods and the harness counters against the documented exit-code rule; tally / exit-status and slice-partition lemmas by induction / arithmetic; scheduling clauses not decided',
+    design_ref='DESIGN.md §4 C12, §0.6',
+    technique='deductive: VCs from the real AST of the TestRun completion methods and the harness counters against the documented exit-code rule; tally / exit-status and slice-partition lemmas by induction / arithmetic; the scheduling clauses, TIMEOUT, the printed totals and testlog.json are checked on generated test sets run by the real `meson test --no-rebuild` (bounded)',
     level_text='The classification rule (0/expected OK, 77 SKIP, 99 ERROR, other FAIL; should_fail inverts OK and FAIL only; a result already set is kept), the TAP exit-status rule, "exactly one counter per result", "exit status non-zero iff a bad result" and "the n slices partition the tests" are proved for all exit codes, flags and result sequences.',
-    level_note='NOT decided: exactly-once start, serial isolation and the job bound are properties of asyncio interleavings; TIMEOUT killing involves subprocesses and signals. Assumed: loggers do not touch the counters; time.time opaque; Python extended-slice semantics (checked bounded); get_tests plumbing around the slice step.',
-    not_decided=['each selected test started exactly once per repetition', 'no non-parallel test overlaps another test', 'never more running tests than jobs', 'TIMEOUT when the limit passes and the test is then terminated', 'printed totals / testlog.json text'],
+    level_note='NOT decided deductively: exactly-once start, serial isolation and the job bound are properties of asyncio interleavings; TIMEOUT killing involves subprocesses and signals — all of these are observed on real runs instead (every test program records when it started and ended), bounded. Assumed: loggers do not touch the counters; time.time opaque; Python extended-slice semantics (checked bounded); get_tests plumbing around the slice step.',
+    not_decided=['scheduling clauses as a proof (bounded only: real runs)', '--maxfail cut-off', 'gtest / rust protocols'],
 )
 PROPS['C07'] = dict(
     modules=['specs.options', 'contracts.options', 'lemmas.options', 'contracts.setoption'],
